@@ -456,10 +456,26 @@ func runC01(c *Ctx) {
 		c.touch(fnKey(publisher))
 		c.role("pot publisher", fnKey(publisher))
 		s := newSumm(p, 0)
+		s.HelperInline = func(f *ssa.Function) bool { return privateHelper(publisher, f) }
 		paths, _ := s.Function(publisher)
 		var bad []string
 		fed := false
-		for _, l := range s.loops(publisher) {
+		type lpe struct {
+			fn *ssa.Function
+			l  *Loop
+		}
+		var feedLoops []lpe
+		seenLp := map[*Loop]bool{}
+		for _, ps := range paths {
+			for _, e := range ps.Events {
+				if e.Kind == "loop" && !seenLp[e.Loop] {
+					seenLp[e.Loop] = true
+					feedLoops = append(feedLoops, lpe{e.InFn, e.Loop})
+				}
+			}
+		}
+		for _, fl := range feedLoops {
+			l := fl.l
 			ri := analyseRange(l)
 			if !loadsField(ri.Coll, "pokerface.GameState.Players") {
 				continue
@@ -467,7 +483,7 @@ func runC01(c *Ctx) {
 			if !ri.Full || len(l.Exits) != 1 {
 				bad = append(bad, "the loop over the players is not a full range without early exit")
 			}
-			body, _ := s.LoopBody(publisher, l)
+			body, _ := s.LoopBody(fl.fn, l)
 			for _, ps := range body {
 				calls := ps.Calls(".AddContributor")
 				if len(calls) != 1 || ps.End != "continue" {
@@ -531,7 +547,10 @@ func runC01(c *Ctx) {
 	{
 		var bad []string
 		nFresh, nMerge := 0, 0
-		for _, w := range ix.Writers("pot.Pot.Total") {
+		for _, w := range ix.AnyWriters("pot.Pot.Total") {
+			if w.Pkg == nil || shortPkg(w.Pkg.Pkg.Path()) != "pot" {
+				continue // pots rebuilt elsewhere (tests, table glue) are not the published ones
+			}
 			c.touch(fnKey(w))
 			s := newSumm(p, 0)
 			fp, _ := s.Function(w)
